@@ -7,9 +7,10 @@ LEVEL = "exploration"
 ENGINE = "E0 pure"
 TECHNIQUE = "bounded-exhaustive adversary enumeration (trees of 1..8 leaves) + Hypothesis histories (up to 64 leaves), oracle = genuine HashTree + state-unchanged-on-reject invariant"
 RULE = ("exhaustive: n=1..8 leaves x every set of already-validated leaves x every target leaf x every genuine/forged/missing assignment "
-        "over the needed hashes x leaf genuine/forged x one extra entry (none / duplicate of each already-known node / forged root) x two "
+        "over the needed hashes x leaf genuine/forged x one extra entry (none / duplicate of each already-known node / forged root / a hash number outside the tree: len, 60000, -1, listed last) x two "
         "argument forms; random: histories of genuine validations in random order interleaved with adversarial calls (arbitrary forged, "
-        "missing, duplicate and unneeded entries) on trees up to 64 leaves. Non-trivial = a call that contains at least one forged or "
+        "missing, duplicate and unneeded entries, forged values planted for not-yet-validated leaves followed by a hash number outside the tree) on trees up to 64 leaves; "
+        "a rejection is any exception. Non-trivial = a call that contains at least one forged or "
         "missing or duplicate entry; distinct by full case description.")
 LEVEL_TEXT = ("Complete enumeration of the adversary's choices for trees up to 8 leaves with real SHA-256d hashes (forged = fresh random), and random "
               "histories up to 64 leaves. After every call: success => every stored node equals the genuine tree; rejection => stored nodes identical "
@@ -17,7 +18,7 @@ LEVEL_TEXT = ("Complete enumeration of the adversary's choices for trees up to 8
 ASSUMPTIONS = ["forged hashes are fresh random 32-byte strings (collisions with genuine hashes are not modelled)",
                "the tree is seeded with the genuine root before untrusted input, as the class docstring prescribes"]
 EXHAUSTIVE = {"quick": True, "thorough": True}
-REQUIRED_CLASSES = ["accepted-genuine", "rejected-forged", "rejected-missing", "rejected-with-duplicate-of-known"]
+REQUIRED_CLASSES = ["accepted-genuine", "rejected-forged", "rejected-missing", "rejected-with-duplicate-of-known", "rejected-index-outside-tree"]
 BUDGET = {"quick": 600, "thorough": 3600}
 
 _G = {}
@@ -118,7 +119,7 @@ def run_case_ex(case, ctx):
     G, base = _prepared(n, pre, ctx)
     needed = sorted(base.needed_hashes(t, include_leaf=False))
     known = [i for i in range(len(base)) if base[i] is not None]
-    extras = [None] + [("dup", i) for i in known] + [("forged-root", 0)]
+    extras = [None] + [("dup", i) for i in known] + [("forged-root", 0)] + [("poison", len(base)), ("poison", 60000), ("poison", -1)]
     k = len(needed)
     count = 0
     for assign in range(3 ** k):
@@ -166,18 +167,23 @@ def run_one(case, ctx, prepared=None):
     else:
         hashes[leafidx] = lh
     dup = False
+    poison = False
     ex = case["extra"]
     if ex:
         if ex[0] == "dup":
             if ex[1] not in hashes:
                 hashes[ex[1]] = G[ex[1]]
                 dup = True
+        elif ex[0] == "poison":
+            # a hash number that does not exist in the tree, listed after everything else (so the other entries have been provisionally added)
+            hashes[ex[1]] = forged((n, "poison", ex[1]))
+            poison = True
         else:
             hashes[0] = forged((n, "root"))
             nforged += 1
-    expect_ok = nforged == 0 and nmissing == 0
+    expect_ok = nforged == 0 and nmissing == 0 and not poison
     # a missing needed hash makes the leaf unverifiable unless it was already known
-    must_fail = nforged > 0 or (nmissing > 0 and not leaf_known)
+    must_fail = nforged > 0 or (nmissing > 0 and not leaf_known) or poison
     desc = "n=%d validated-leaves=%s target=%d needed=%r call: hashes=%r leaves=%r (forged=%d missing=%d dup=%s)" % (
         n, bin(pre), t, needed, sorted(hashes), sorted(leaves), nforged, nmissing, dup)
     classes = []
@@ -191,7 +197,9 @@ def run_one(case, ctx, prepared=None):
             classes.append("rejected-missing")
         if dup:
             classes.append("rejected-with-duplicate-of-known")
-    nt = nforged > 0 or nmissing > 0 or dup
+        if poison:
+            classes.append("rejected-index-outside-tree")
+    nt = nforged > 0 or nmissing > 0 or dup or poison
     ctx.note(sig=(n, pre, t, case["assign"], case["leaf"], repr(ex), case["form"]), nontrivial=nt, classes=classes,
              sample={"case": case, "needed": needed, "accepted": ok} if (pre and nt) else None)
 
@@ -211,7 +219,9 @@ def histories(draw):
                           "forge": draw(st.lists(st.integers(0, 2 * 64), max_size=3)),
                           "drop": draw(st.lists(st.integers(0, 7), max_size=2)),
                           "extra": draw(st.lists(st.tuples(st.integers(0, 2 * 64), st.booleans()), max_size=3)),
-                          "forge_leaf": draw(st.booleans())})
+                          "forge_leaf": draw(st.booleans()),
+                          "poison": draw(st.sampled_from([None, None, None, "size", "size+", 60000, 65535, -1, "-size-1"])),
+                          "plant": draw(st.lists(st.integers(0, 63), max_size=3))})
     return {"mode": "hist", "n": n, "steps": steps}
 
 
@@ -274,6 +284,19 @@ def run_history(case, ctx):
                 lh = forged((n, si, "leaf"))
                 nforged += 1
             leaf_known = iht[leafidx] is not None
+            poisoned = False
+            if s.get("poison") is not None:
+                # forged values for leaves not validated yet ("plants"), then a hash number that does not exist in the tree
+                for pl in s.get("plant", []):
+                    j = iht.first_leaf_num + pl % n
+                    if j not in hashes and iht[j] is None:
+                        hashes[j] = forged((n, si, "plant", j))
+                        nforged += 1
+                pz = s["poison"]
+                pidx = {"size": size, "size+": size + 1 + si, "-size-1": -size - 1}.get(pz, pz)
+                hashes[pidx] = forged((n, si, "poison"))
+                poisoned = True
+                nforged += 1
             hashes_before = dict(hashes)
             ok = _apply(ctx, G, iht, hashes, {t: lh}, False, nforged > 0,
                         "n=%d step %d adversarial leaf %d need=%r hashes=%r forged=%d" % (n, si, t, need, sorted(hashes_before), nforged), classes)
@@ -285,4 +308,6 @@ def run_history(case, ctx):
                     classes.append("rejected-missing")
                 if dup:
                     classes.append("rejected-with-duplicate-of-known")
+                if poisoned:
+                    classes.append("rejected-index-outside-tree")
     ctx.note(sig=repr(case), nontrivial=nt, classes=sorted(set(classes)) + (["n>8"] if n > 8 else []), sample=case)
